@@ -31,6 +31,11 @@ pub fn trace_take() -> Vec<String> {
     TRACE.with(|t| t.borrow_mut().take().unwrap_or_default())
 }
 
+/// Is a recording in progress on this thread?
+pub(crate) fn tracing() -> bool {
+    TRACE.with(|t| t.borrow().is_some())
+}
+
 #[inline]
 pub(crate) fn emit(f: impl FnOnce() -> String) {
     TRACE.with(|t| {
